@@ -332,8 +332,9 @@ pub assume_specification [crate::vm::environment::EnvironmentMap::new] () -> (r:
     'prelude': r'''
 use crate::vm::compile::{rt_app, vm_transformed, transformed, code_ends_in_tail_call, heap_deref, lambda_cell, call_op, ends_in_call, axiom_lambda_cell, axiom_into_self};
 use crate::vm::stack::Stack; use crate::vm::heap::Heap;
-/// the (here opaque) stack: its top cell and what is left after popping it
-pub uninterp spec fn stack_top(s: Stack) -> VCell;
+/// the (here opaque) stack: what is left after popping it
+/// what Vm::pop answers for stack s under heap h: the top cell read through the heap (a by-value copy of what it designates)
+pub uninterp spec fn popped_value(h: Heap, s: Stack) -> VCell;
 pub uninterp spec fn stack_popped(s: Stack) -> Stack;
 pub uninterp spec fn heap_value(h: Heap, v: VCell) -> Cell;
 /// popping touches the stack only
@@ -343,11 +344,11 @@ pub open spec fn pops(old: Vm, new: Vm) -> bool {
 pub assume_specification [crate::vm::builtin::pop_argc] (vm: &mut Vm, min: usize, max: Option<usize>, proc: &str) -> (r: Result<usize, Error>)
     ensures r is Ok ==> pops(*old(vm), *final(vm));
 pub assume_specification [Vm::pop] (vm: &mut Vm) -> (r: Result<VCell, Error>)
-    ensures r matches Ok(c) ==> c == stack_top(old(vm).stack_spec()) && pops(*old(vm), *final(vm));
+    ensures r matches Ok(c) ==> c == popped_value(old(vm).heap_spec(), old(vm).stack_spec()) && pops(*old(vm), *final(vm));
 pub assume_specification [Heap::get_as_cell] (h: &Heap, v: &VCell) -> (r: Cell) ensures r == heap_value(*h, *v);
 pub assume_specification<T: Into<VCell> + std::fmt::Display> [Stack::push] (s: &mut Stack, v: T);
 /// the datum eval compiles: the cell under the argument count, read through the heap
-pub open spec fn eval_datum(vm: Vm) -> Cell { heap_value(vm.heap_spec(), stack_top(stack_popped(vm.stack_spec()))) }
+pub open spec fn eval_datum(vm: Vm) -> Cell { heap_value(vm.heap_spec(), popped_value(vm.heap_spec(), stack_popped(vm.stack_spec()))) }
 ''',
     'fns': {
         '::eval': {
